@@ -135,7 +135,21 @@ def work(job):
                 src = docs[di]
                 fmt, ext, lang = rand_opts(rng)
                 mode = rng.random()
-                if mode < 0.5 or len(slots) >= 3:
+                if mode < 0.06:
+                    # packaged formats: their bytes carry uuids and dates (C06/C09 compare those); here only "the caller's source is left unchanged"
+                    pf = rng.choice([1, 6, 7, 8, 10])
+                    fam = rng.choice([1, 2])
+                    rq = D.req_to_json(variant, 'CONVERT', pf, ext, lang, fam | (1 << 4), [src])
+                    hist.append(rq)
+                    rep = s.call(variant, 'CONVERT', pf, ext, lang, fam | (1 << 4), [src], history=hist[:-1], crash_is_violation=False)
+                    r.evaluations += 1
+                    r.stats['package_conversions_source_snapshotted'] += 1
+                    if rep is None:
+                        break
+                    if 'srcmod:' in rep.diag:
+                        r.violate('source-modified:' + rep.diag.split('srcmod:')[1].split(';')[0], 'the caller\'s source changed during a %s conversion' % D.FMT_NAME[pf],
+                                  dict(requests=list(hist)), core.show(src, 300))
+                elif mode < 0.5 or len(slots) >= 3:
                     fam = rng.randrange(3)
                     rq = D.req_to_json(variant, 'CONVERT', fmt, ext, lang, fam | (1 << 4), [src])
                     hist.append(rq)
@@ -150,13 +164,14 @@ def work(job):
                 else:
                     # reused engine: create once, convert several times in different formats, with queries/updates/resets in between
                     sl = len(slots)
-                    rq = D.req_to_json(variant, 'ENGINE', 0, ext, lang, sl | (rng.randrange(2) << 4), [src])
+                    own = rng.randrange(2)
+                    rq = D.req_to_json(variant, 'ENGINE', 0, ext, lang, sl | (own << 4), [src])
                     hist.append(rq)
                     if s.call(variant, *D.req_from_json(rq), history=hist[:-1], crash_is_violation=False) is None:
                         break
                     slots[sl] = (src, ext, lang)
                     cur = src
-                    for _ in range(rng.randint(1, 5)):
+                    for _ in range(rng.randint(1, 6)):
                         a = rng.random()
                         if a < 0.6:
                             f2 = rng.choice(FORMATS)
@@ -167,6 +182,25 @@ def work(job):
                             if rep is None:
                                 break
                             compare(r, fresh, variant, hist, 'reused engine', cur, f2, ext, lang, rep.out if rep.status == 0 else None, 'slot %d' % sl)
+                            reused = True
+                        elif a < 0.68 and own:
+                            # the caller edits the DString it shares with the engine, then converts again: nothing of the previous text may linger
+                            cur = docs[rng.randrange(len(docs))]
+                            rq = D.req_to_json(variant, 'ENGINE', 0, 0, 0, sl | (15 << 4), [cur])
+                            hist.append(rq)
+                            if s.call(variant, *D.req_from_json(rq), history=hist[:-1], crash_is_violation=False) is None:
+                                break
+                            r.stats['engine_source_replaced'] += 1
+                            # the engine learns about the new text by converting it (queries/updates before that would read stale offsets:
+                            # the API does not promise anything for that order, so it is not generated)
+                            f2 = rng.choice(FORMATS)
+                            rq = D.req_to_json(variant, 'ENGINE', f2, 0, 0, sl | (3 << 4), [b''])
+                            hist.append(rq)
+                            rep = s.call(variant, *D.req_from_json(rq), history=hist[:-1], crash_is_violation=False)
+                            r.evaluations += 1
+                            if rep is None:
+                                break
+                            compare(r, fresh, variant, hist, 'reused engine after the caller replaced the text', cur, f2, ext, lang, rep.out if rep.status == 0 else None, 'slot %d' % sl)
                             reused = True
                         elif a < 0.75:
                             rq = D.req_to_json(variant, 'ENGINE', 0, 0, 0, sl | (rng.choice([4, 5, 8]) << 4), [b''])
@@ -185,9 +219,14 @@ def work(job):
                             if rep is None:
                                 break
                             cur = rep.out           # the engine's source after the update is the new source
-                    rq = D.req_to_json(variant, 'ENGINE', 0, 0, 0, sl | (9 << 4), [b''])
-                    hist.append(rq)
-                    s.call(variant, *D.req_from_json(rq), history=hist[:-1], crash_is_violation=False)
+                    else:
+                        # (no break: the worker is still alive and holds the slot)
+                        rq = D.req_to_json(variant, 'ENGINE', 0, 0, 0, sl | (9 << 4), [b''])
+                        hist.append(rq)
+                        s.call(variant, *D.req_from_json(rq), history=hist[:-1], crash_is_violation=False)
+                        continue
+                    r.stats['history cut short by a crash/exit inside the engine steps (C01/C02 territory)'] += 1
+                    break
             if reused or k > 1:
                 r.distinct.add(core.h64(i, seed))
             r.stats['histories'] += 1
